@@ -41,7 +41,8 @@ def stages(tier, rng, only=None):
         algorun.ALL_CONFIGS, SCHEMES, rng, flags=(1, 0), every=COSTLY), _nt))
     out.append(ac.stage("cycles", PID, lambda: ac.cases(
         [ac.cyclic_dataset(rng, 3, 5, incomplete=k % 2 == 1) for k in range(120 if tier == "quick" else 1200)]
-        + [ac.two_cycles(rng) for _ in range(8 if tier == "quick" else 60)],
+        + [ac.two_cycles(rng) for _ in range(8 if tier == "quick" else 60)]
+        + [ac.cycle_plus(rng) for _ in range(60 if tier == "quick" else 600)],
         algorun.ALL_CONFIGS, SCHEMES, namings=ac.NAMINGS3, every={k: 2 * v for k, v in COSTLY.items()}), _nt))
     from .C11 import stages as kwik_stages
     for st in kwik_stages(tier, rng, prop=PID):
